@@ -7,6 +7,7 @@
 (*   SetWord(ti, w, idx, v)       overwrite the idx-th 16/32-bit word of the first 64 table bytes  *)
 (*   SwapBodies(t1, t2)           exchange the directory entries' offset/length                    *)
 (*   NumTables(v)                 lie about the number of tables                                   *)
+(*   GlyphByte / SetByte / SbixDupe   deeper faults, see below                                      *)
 (* TLC enumerates every single fault and every pair of directory faults on the first PT tables.   *)
 EXTENDS Integers, Sequences, TLC, Json
 CONSTANTS NT, PT
@@ -20,7 +21,12 @@ SetDirs(T) == {[k |-> "setdir", ti |-> t, field |-> f, v |-> v] : t \in T, f \in
 SetWords == {[k |-> "setword", ti |-> t, w |-> w, idx |-> i, v |-> v] : t \in 1..NT, w \in {16, 32}, i \in 0..23, v \in WordVals}
 Swaps == {[k |-> "swap", t1 |-> a, t2 |-> b] : a \in 1..PT, b \in 1..NT}
 Nums == {[k |-> "numtables", v |-> v] : v \in {"0", "1", "count+1", "max"}}
-Single == Truncs \cup SetDirs(1..NT) \cup SetWords \cup Swaps \cup Nums
+(* deeper, format-aware faults: bytes inside the first glyph records of 'glyf', bytes spread over     *)
+(* every table, and 'dupe' reference graphs among the first bitmap glyphs of an 'sbix' strike          *)
+GlyphBytes == {[k |-> "glyphbyte", gi |-> g, idx |-> i, v |-> v] : g \in 1..10, i \in 0..39, v \in {"0", "5", "mid8", "max8"}}
+SpreadBytes == {[k |-> "setbyte", ti |-> t, frac |-> f, off |-> o, v |-> v] : t \in 1..NT, f \in 1..7, o \in 0..3, v \in {"0", "max8"}}
+SbixDupes == {[k |-> "sbixdupe", t1 |-> a, t2 |-> b, t3 |-> c] : a \in 0..3, b \in 0..3, c \in 0..3}      \* glyph i becomes a dupe of t_i (0 = unchanged)
+Single == Truncs \cup SetDirs(1..NT) \cup SetWords \cup Swaps \cup Nums \cup GlyphBytes \cup SpreadBytes \cup SbixDupes
 
 Init == plan = << >> /\ stage = 0
 First == /\ stage = 0 /\ \E f \in Single : plan' = << f >> /\ stage' = 1
